@@ -308,4 +308,100 @@ theorem no_unused_variables_per_operation (d : Doc) (hk : Spec.uniqueOpKeys d) :
   · rintro h o x ⟨df, hdf, ho, hx⟩
     exact ⟨df, hdf, ho, h df hdf (by rw [ho]; rfl) x hx⟩
 
+private theorem flat_unique {l : List Def} (h : (l.filterMap Def.opKey?).Nodup) {df : Def} {o : String}
+    (hdf : df ∈ l) (ho : df.opKey? = some o) :
+    (l.flatMap fun df' => if df'.opKey? = some o then df'.vars else []) = df.vars := by
+  induction l with
+  | nil => cases hdf
+  | cons a l ih =>
+    have hmem : ∀ y ∈ l, y.opKey? = some o → o ∈ l.filterMap Def.opKey? :=
+      fun y hy hk => List.mem_filterMap.mpr ⟨y, hy, hk⟩
+    rw [List.flatMap_cons]
+    rcases List.mem_cons.mp hdf with rfl | hdf'
+    · rw [if_pos ho]
+      rw [List.filterMap_cons, ho, List.nodup_cons] at h
+      have : (l.flatMap fun df' => if df'.opKey? = some o then df'.vars else []) = [] := by
+        rw [List.flatMap_eq_nil_iff]
+        intro y hy
+        by_cases hk : y.opKey? = some o
+        · exact absurd (hmem y hy hk) h.1
+        · rw [if_neg hk]
+      rw [this, List.append_nil]
+    · have hne : ¬ a.opKey? = some o := by
+        intro hk
+        rw [List.filterMap_cons, hk, List.nodup_cons] at h
+        exact h.1 (hmem df hdf' ho)
+      rw [if_neg hne, List.nil_append]
+      apply ih _ hdf'
+      rw [List.filterMap_cons] at h
+      cases hx : a.opKey? with
+      | none => rw [hx] at h; exact h
+      | some k => rw [hx, List.nodup_cons] at h; exact h.2
+
+private theorem nodup_map_inj {L : List VarDef} (hn : (L.map (·.name)).Nodup) {a b : VarDef}
+    (ha : a ∈ L) (hb : b ∈ L) (h : a.name = b.name) : a = b := by
+  induction L with
+  | nil => cases ha
+  | cons v vs ih =>
+    rw [List.map_cons, List.nodup_cons] at hn
+    rcases List.mem_cons.mp ha with rfl | ha' <;> rcases List.mem_cons.mp hb with rfl | hb'
+    · rfl
+    · exact absurd (List.mem_map.mpr ⟨b, hb', h.symm⟩) hn.1
+    · exact absurd (List.mem_map.mpr ⟨a, ha', h⟩) hn.1
+    · exact ih hn.2 ha' hb'
+
+private theorem find_last_iff {L : List VarDef} (hn : (L.map (·.name)).Nodup) (x : String) (vd : VarDef) :
+    L.reverse.find? (·.name == x) = some vd ↔ vd ∈ L ∧ vd.name = x := by
+  constructor
+  · intro h
+    have := List.find?_some h
+    exact ⟨List.mem_reverse.mp (List.mem_of_find?_eq_some h), by simpa using this⟩
+  · rintro ⟨hm, rfl⟩
+    cases hf : L.reverse.find? (·.name == vd.name) with
+    | none =>
+      rw [List.find?_eq_none] at hf
+      have := hf vd (List.mem_reverse.mpr hm)
+      simp at this
+    | some w =>
+      have hw : w ∈ L := List.mem_reverse.mp (List.mem_of_find?_eq_some hf)
+      have hwn : w.name = vd.name := by simpa using List.find?_some hf
+      congr 1
+      exact nodup_map_inj hn hw hm hwn
+
+/-- **the definition a usage is checked against**, on documents with unique operation and variable names -/
+theorem varDefFor_of_unique (d : Doc) (hk : Spec.uniqueOpKeys d) (hv : Spec.uniqueVariableNames d) {df : Def}
+    (hdf : df ∈ d.defs) {o : String} (ho : df.opKey? = some o) (x : String) (vd : VarDef) :
+    varDefFor d o x = some vd ↔ vd ∈ df.vars ∧ vd.name = x := by
+  unfold varDefFor
+  rw [flat_unique hk hdf ho]
+  apply find_last_iff
+  cases df with
+  | op k n vs ds i ss => exact hv _ hdf k n vs ds i ss rfl
+  | frag => exact List.nodup_nil
+  | ts => exact List.nodup_nil
+
+/-- 5.8.5 per operation definition -/
+theorem variables_in_allowed_position_per_operation (s : SchemaD) (d : Doc) (hk : Spec.uniqueOpKeys d)
+    (hv : Spec.uniqueVariableNames d) :
+    Spec.variablesInAllowedPosition s d ↔ Spec.variablesInAllowedPositionPerOp s d := by
+  unfold Spec.variablesInAllowedPosition Spec.variablesInAllowedPositionPerOp
+  have husedAt : ∀ o x u, UsedAt s d o x u ↔ ∃ df ∈ d.defs, df.opKey? = some o ∧ UsedAtByOp s d df x u := by
+    intro o x u
+    unfold UsedAt UsedAtByOp OpReaches OpSpreads
+    constructor
+    · rintro (⟨df, h1, h2, h3⟩ | ⟨f, ⟨g, ⟨df, h1, h2, h3⟩, hr⟩, hu⟩)
+      · exact ⟨df, h1, h2, Or.inl h3⟩
+      · exact ⟨df, h1, h2, Or.inr ⟨f, ⟨g, h3, hr⟩, hu⟩⟩
+    · rintro ⟨df, h1, h2, (h3 | ⟨f, ⟨g, h3, hr⟩, hu⟩)⟩
+      · exact Or.inl ⟨df, h1, h2, h3⟩
+      · exact Or.inr ⟨f, ⟨g, ⟨df, h1, h2, h3⟩, hr⟩, hu⟩
+  constructor
+  · intro h df hdf hs x u hu vd hvd hn
+    obtain ⟨o, ho⟩ := Option.isSome_iff_exists.mp hs
+    exact h o x u vd ((husedAt o x u).mpr ⟨df, hdf, ho, hu⟩) ((varDefFor_of_unique d hk hv hdf ho x vd).mpr ⟨hvd, hn⟩)
+  · intro h o x u vd hu hd
+    obtain ⟨df, hdf, ho, hu'⟩ := (husedAt o x u).mp hu
+    obtain ⟨hvd, hn⟩ := (varDefFor_of_unique d hk hv hdf ho x vd).mp hd
+    exact h df hdf (by rw [ho]; rfl) x u hu' vd hvd hn
+
 end PyGql.Props.C06
